@@ -539,6 +539,7 @@ fn gen_case(g: &mut G) -> Case {
 }
 
 pub fn run(ctx: &mut Ctx) {
+    crate::api::run_schema(ctx);
     ctx.rule = "generated schema statements (CREATE TABLE over every column type the dialect supports with lengths / precisions, specification sequences, table-level keys with prefixes and directions, foreign keys with actions, checks, MySQL table options; ALTER TABLE option sequences incl. MODIFY COLUMN; CREATE / DROP INDEX with methods, INCLUDE, NULLS NOT DISTINCT, partial; foreign key statements; DROP / RENAME / TRUNCATE; Postgres CREATE / ALTER / DROP TYPE and EXTENSION) x {MySQL, Postgres}; the rendering is parsed by the dialect's reference DDL grammar and the tree compared with the tree expected from the scenario".into();
     let total = if ctx.tier_thorough { 60000 } else { 8000 };
     let mut rng = ctx.rng.fork();
